@@ -26,6 +26,9 @@ class Builder:
 
     def assign(self, b, place, rv):
         self.fn.blocks[b]['s'].append({'p': place, 'rv': rv, 'ln': self.ln, 'exp': False, 'syn': True})
+        if not place['pr'] and (rv.get('k') == 'agg' or (rv.get('k') == 'use' and 'k' in rv.get('x', {}))):
+            # the result of a dissolved combinator: its known variants / constants may be threaded like helper results
+            self.fn.ret_locals = getattr(self.fn, 'ret_locals', set()) | {place['l']}
 
     def goto(self, b, t):
         self.fn.blocks[b]['t'] = {'k': 'goto', 't': t, 'syn': True}
@@ -122,6 +125,9 @@ def emit_call(B, b, fop, args, ret_ty, cont, by_mut_ref=False):
     if not hasattr(fn, 'inlined'):
         fn.inlined = []
     fn.spliced_closure_locals = getattr(fn, 'spliced_closure_locals', set()) | {cl}
+    if not ety.startswith('&'):
+        # environment moved into the closure body's own parameter local: scalarised together with it
+        fn.spliced_closure_locals.add(len(fn.locals) + 1)
     splice(fn, b, cf)
     return r
 
@@ -242,6 +248,70 @@ def expand_iter_site(prog, fn, bi, meth):
     return True
 
 
+def _single_def(fn, l):
+    defs = []
+    for bb in fn.blocks:
+        if bb['cleanup']:
+            continue
+        for st in bb['s']:
+            if 'p' in st and st['p']['l'] == l and not st['p']['pr']:
+                defs.append(st['rv'])
+        t = bb['t']
+        if t['k'] == 'call' and t['d']['l'] == l:
+            defs.append(None)
+    return defs[0] if len(defs) == 1 else None
+
+
+def expand_closure_call(prog, fn, bi):
+    """`f(x)` where f is a local (or a parameter of an inlined generic helper) that holds a closure built in this function:
+    `<F as Fn>::call(&f, (x,))` becomes the closure body"""
+    t = fn.blocks[bi]['t']
+    args = t['a']
+    if len(args) != 2 or t['d']['pr'] or t['t'] is None:
+        return False
+    r = _plain(args[0])
+    tup = _plain(args[1])
+    if r is None or tup is None:
+        return False
+    # receiver: the closure local itself, or a chain of references / copies to it
+    cl = r
+    for _ in range(6):
+        if closure_of(prog, fn, cl) is not None:
+            break
+        rv = _single_def(fn, cl)
+        if rv is None:
+            return False
+        if rv['k'] == 'ref' and not rv['p']['pr']:
+            cl = rv['p']['l']
+        elif rv['k'] == 'ref' and rv['p']['pr'] == ['*']:
+            cl = rv['p']['l']
+        elif rv['k'] == 'use' and _plain(rv['x']) is not None:
+            cl = _plain(rv['x'])
+        else:
+            return False
+    cf = closure_of(prog, fn, cl)
+    if cf is None or not cf.has_body:
+        return False
+    trv = _single_def(fn, tup)
+    if trv is None or trv['k'] != 'agg' or trv.get('ak') != 'tuple':
+        return False
+    nargs = len(trv['ops'])
+    if len(cf.locals) < 2 + nargs:
+        return False
+    call_args = [{'m': {'l': tup, 'pr': [{'f': i, 'n': str(i), 'adt': '', 'ty': cf.locals[2 + i]['ty']}]}} for i in range(nargs)]
+    B = Builder(prog, fn, fn.blocks[bi].get('ln'))
+    dest, cont = t['d'], t['t']
+    after = B.block()
+    saved = copy.deepcopy(fn.blocks[bi]['t'])
+    res = emit_call(B, bi, {'m': {'l': cl, 'pr': []}}, call_args, cf.locals[0]['ty'], after)
+    if res is None:
+        fn.blocks[bi]['t'] = saved
+        return False
+    B.assign(after, copy.deepcopy(dest), use(mv(res)))
+    B.goto(after, cont)
+    return True
+
+
 def expand_bool_then(prog, fn, bi, meth):
     """`cond.then_some(v)` / `cond.then(|| v)`"""
     t = fn.blocks[bi]['t']
@@ -286,6 +356,8 @@ def expand_site(prog, fn, bi):
         del fn.locals[nl:]
         del fn.blocks[nb_:]
         return False
+    if decl.endswith('ops::function::Fn::call') or decl.endswith('ops::function::FnMut::call_mut') or decl.endswith('ops::function::FnOnce::call_once'):
+        return expand_closure_call(prog, fn, bi)
     sname = f.get('str') or ''
     if sname in ('core::bool::<impl bool>::then_some', 'core::bool::<impl bool>::then'):
         return expand_bool_then(prog, fn, bi, sname.split('::')[-1])
